@@ -1,4 +1,3 @@
-import os
 from vlib import Job
 
 META = dict(
@@ -41,7 +40,7 @@ META = dict(
         "parsec_reshape.c / remote_dep_mpi.c are not checked here)",
         "init functions are called before the future is shared (documented as not thread-safe)",
         "blocked executions (spinning get on a future nobody completes, lock never released) are not explored: no liveness claim",
-        "interference is injected before each wrapped atomic/lock/barrier operation and after each unlock; the two consecutive plain reads "
+        "interference is injected before and after each wrapped atomic/barrier operation (VERIF_RG_POST_STEP), before each lock acquisition and after each unlock; the two consecutive plain reads "
         "'status & COMPLETED' then 'tracked_data' at the end of get_or_trigger_internal have no injection point between them (covered by "
         "the rely: the value is stable once COMPLETED)",
     ],
@@ -76,11 +75,10 @@ def jobs(tier):
                              "distinct requested shapes, the code admits longer lists)" % (n, NN),
                      functions=["parsec_datacopy_future_get_or_trigger", "parsec_datacopy_future_get_or_trigger_internal"],
                      timeout=600, min_obligations=40))
-    # Obligation of the property statement that FAILS on the unchanged tree (first value NULL): kept in its own job.
-    # C29_SKIP_FINDING_JOBS=1 leaves it out (used to run the self-test, which needs a clean baseline).
-    if not os.environ.get("C29_SKIP_FINDING_JOBS"):
-        J.append(Job("base.set.null_first_value", "h_future.c", entry="h_base_set_null_first", unwind=2,
-                     functions=["parsec_base_future_set", "parsec_base_future_get"], timeout=300, min_obligations=4))
+    # Obligation of the property statement that FAILS on the unchanged tree (first value NULL): kept in its own job,
+    # registered in /verif/known_findings.json as C29-null-first-value (KNOWN-FINDING line, exit 0).
+    J.append(Job("base.set.null_first_value", "h_future.c", entry="h_base_set_null_first", unwind=2,
+                 functions=["parsec_base_future_set", "parsec_base_future_get"], timeout=300, min_obligations=4))
     return J
 
 
